@@ -193,9 +193,18 @@ def run(tier, rep):
     if q:
         sc = gen.sample(sc, 30000, C.SEED)
     jobs = [(s, CFGS[k % 2], "MCClassesQ") for k, s in enumerate(sc)] + [(s, CFGS[k % 2], "MCClasses") for k, s in enumerate(sim)]
-    traces = C.pmap(run_script, jobs, chunk=200)
-    verdicts, st = C.validate_traces("EnvTrace", traces, shard=4000, heap="8g")
-    rep.tlc_stats("EnvTrace", st, len(traces))
+    # executed and validated in slices (the thorough tier has millions of scripts: bounded memory)
+    verdicts, ntr, acc = [], 0, {"generated": 0, "distinct": 0, "shards": 0, "tlc_wall": 0.0}
+    for lo in range(0, len(jobs), 150000):
+        part = C.pmap(run_script, jobs[lo: lo + 150000], chunk=200)
+        vs, st = C.validate_traces("EnvTrace", part, shard=4000, heap="8g")
+        verdicts += vs
+        ntr += len(part)
+        for kk in acc:
+            acc[kk] += st[kk]
+        del part
+    rep.tlc_stats("EnvTrace", acc, ntr)
+    traces = range(ntr)
     for job, (v, pos) in zip(jobs, verdicts):
         if v != "ok":
             s = job[0]
